@@ -457,6 +457,32 @@ theorem get_after_error_iff (stamp : Line → Option RawStamp) (hasYear : Bool) 
       h.mpr ⟨l, hl, by simp [hr, hn]⟩
     rw [this] at hg; cases hg
 
+/-- the result of a call is a function of THAT call's arguments only, and of the stamps of its OWN lines only: two
+stamp functions (say, the extraction of two processes with different call histories, or the same text read in two
+other logs) that agree on the lines of this log give the same result.  There is no other state in the model; the
+`get_after-history` stream checks the implementation against this call by call. -/
+theorem get_after_depends_only_on_own_lines (stamp₁ stamp₂ : Line → Option RawStamp) (hasYear : Bool) (thr : Time)
+    (s : Option Term) (lines : List Line) (h : ∀ l ∈ lines, stamp₁ l = stamp₂ l) :
+    getAfter stamp₁ hasYear thr s lines = getAfter stamp₂ hasYear thr s lines := by
+  unfold getAfter
+  cases afterKeep s with
+  | none => rfl
+  | some keep =>
+    simp only
+    have key : ∀ (inc : Bool) (ls : List Line), (∀ l ∈ ls, stamp₁ l = stamp₂ l) →
+        afterGo keep (fun l => (stamp₁ l).map (resolve hasYear thr)) thr inc ls =
+        afterGo keep (fun l => (stamp₂ l).map (resolve hasYear thr)) thr inc ls := by
+      intro inc ls
+      induction ls generalizing inc with
+      | nil => intro _; rfl
+      | cons l ls ih =>
+        intro hl
+        have h1 := hl l (by simp)
+        have ih' := fun inc => ih inc (fun x hx => hl x (by simp [hx]))
+        rw [afterGo, afterGo, h1]
+        simp only [ih']
+    rw [key false lines h]
+
 /-- TypeError exactly for the empty list of terms -/
 theorem get_after_type_error_iff (stamp : Line → Option RawStamp) (hasYear : Bool) (thr : Time) (s : Option Term)
     (lines : List Line) : getAfter stamp hasYear thr s lines = .typeError ↔ s = some (.many []) := by
